@@ -10,9 +10,9 @@ import (
 	"os"
 	"path/filepath"
 	"sort"
-	"sync"
 	"strconv"
 	"strings"
+	"sync"
 	"time"
 
 	"github.com/stackus/goht/compiler"
